@@ -627,7 +627,7 @@ func C10() kit.Engine {
 		Id:  "C10",
 		New: func(st *kit.Stats) kit.SeqSim { return &c10{st: st} },
 		Desc: kit.Description{
-			Rule: "one run = one drawn history of insertions, single-transaction deliveries and block scans on one filter (shape, flag, spend graph and delivery order drawn; orders: topological, reverse, canonical, random); per delivery result and bits equal the BIP37 model; per scan: exact-set closure L subset of reported subset of matches-under-final-bits, and the three scanning entry points agree; non-trivial = a delivery updated the filter or a scan needed a re-check (relevant child delivered before its parent); distinct = distinct FNV-64 signature of the executed op list",
+			Rule: "one run = one drawn history of insertions, single-transaction deliveries and block scans on one filter (shape, flag, spend graph incl. coinbase-like inputs, many-output transactions, long and non-canonically pushed elements; scans of whole or partial transaction sets in topological, reverse, canonical or random order through three entry points on one re-used wrapped block, followed by an empty-filter rescan); per delivery result and bits equal the BIP37 model; per scan: exact-set closure subset of reported subset of matches-under-final-bits; non-trivial = a delivery updated the filter or a scan needed a re-check (relevant child delivered before its parent); distinct = distinct FNV-64 signature of the executed op list",
 			RealVsStub: map[string]string{
 				"bloom.Filter.MatchTxAndUpdate, bloom.GetMatchedIndices, bloom.NewMerkleBlock, merkleblock.NewMerkleBlockWithFilter, bchutil.Tx/Block": "real (from /repo working tree)",
 				"txscript.PushedData / GetScriptClass, wire":          "real dependencies, shared with the model (trusted)",
